@@ -20,6 +20,8 @@ CONSTANTS N,          \* number of stages
           HereAt,            \* 0 = no here-string; i = stage i reads a here-string (`cmd <<< word`)
           HereUnits,         \* units the shell writes into the here-string pipe
           SigpipeMode,       \* "default" = the shell writes with SIGPIPE at its default disposition (core.rs as pinned); "ignored"
+          CapRedirect,       \* TRUE = the captured (last) stage redirects its stdout to a file itself (`$(cmd > f)`)
+          CapCloseMode,      \* "onlyDup" = core.rs as pinned: a capture pipe is closed only where it is also dup2()ed; "always"
           CapReadMode        \* "sequential" = core.rs as pinned: stdout to EOF, then stderr; "concurrent" = both drained together
 
 Shell == 0
@@ -246,10 +248,13 @@ CHere(i) ==   \* the stage with the here-string: close the write end, the read e
   /\ cpc' = [cpc EXCEPT ![i] = IF Capture /\ i = N THEN "capdup" ELSE "exec"]
   /\ UNCHANGED <<alive, spc, buf, left, got, status, nextfd, reaped>>
 
-CCapDup(i) ==   \* last stage: stdout / stderr become the capture pipes' write ends
+CCapDup(i) ==   \* last stage: stdout / stderr become the capture pipes' write ends (a stream the stage redirects itself is left alone)
   /\ cpc[i] = "capdup"
-  /\ fdt' = [fdt EXCEPT ![i] = LET f1 == With(With(@, 1, W(CapO)), 2, W(CapE)) IN
-                               [d \in {x \in Dom(f1) : x <= 2 \/ f1[x] \notin {R(CapO), W(CapO), R(CapE), W(CapE)}} |-> f1[d]]]
+  /\ fdt' = [fdt EXCEPT ![i] =
+              LET fout == IF CapRedirect THEN With(@, 1, <<"file", 0>>) ELSE With(@, 1, W(CapO))
+                  f1 == With(fout, 2, W(CapE))
+                  drop == IF CapRedirect /\ CapCloseMode = "onlyDup" THEN {R(CapE), W(CapE)} ELSE {R(CapO), W(CapO), R(CapE), W(CapE)}
+              IN [d \in {x \in Dom(f1) : x <= 2 \/ f1[x] \notin drop} |-> f1[d]]]
   /\ cpc' = [cpc EXCEPT ![i] = "exec"]
   /\ UNCHANGED <<alive, spc, buf, left, got, status, nextfd, reaped>>
 
